@@ -49,6 +49,7 @@ var pathResolve func(ssa.Value) ssa.Value
 const (
 	stInfeasible uint8 = 0xff
 	bFAIL        uint8 = 4 // the latest matching call's error was tested and found non-nil
+	bLOST        uint8 = 8 // settled events: a matching call ran while the previous one's error was still untested
 )
 
 func resolved(v ssa.Value) ssa.Value {
